@@ -566,10 +566,59 @@ pub fn run(cfg: &RunCfg) -> CheckReport {
         });
     });
     rep.part("textdiff", json!({"scopes": space.describe(), "radii": radii}), ex);
+    if rep.has_violation() {
+        return rep;
+    }
+    // a text diff whose sides together exceed 2^24 tokens (f32 cannot tell its ratio from 1.0)
+    let ex = explore(cfg, 2, |shard, acc| {
+        let n = (1usize << 23) + shard;
+        let old: Vec<&str> = vec!["a\n"; n];
+        let mut new = old.clone();
+        if shard == 0 {
+            new.push("b\n");
+        } else {
+            new[n / 2] = "b\n";
+        }
+        let r = subject(|| {
+            let d = TextDiff::from_slices(&old, &new);
+            (d.ops().to_vec(), d.grouped_ops(3), d.grouped_ops(0))
+        });
+        match r {
+            Err(p) => acc.violation(|| (json!({"huge_textdiff": shard}), format!("panic: {}", p))),
+            Ok((ops, g3, g0)) => {
+                for (n, g) in [(3usize, g3), (0, g0)] {
+                    let want = reference_groups(&ops, n);
+                    if strip_empty_equal(g.clone()) != want {
+                        acc.violation(|| {
+                            (
+                                json!({"huge_textdiff": shard}),
+                                format!(
+                                    "TextDiff::grouped_ops({}) on {} vs {} tokens gives {} group(s), the reference grouping of its ops {:?} gives {:?}",
+                                    n,
+                                    old.len(),
+                                    new.len(),
+                                    g.len(),
+                                    ops,
+                                    want
+                                ),
+                            )
+                        });
+                        return;
+                    }
+                }
+                acc.sample(json!({"tokens_old": old.len(), "tokens_new": new.len()}));
+                acc.ok(true, ops.len() as u64, ops_fp(&ops));
+            }
+        }
+    });
+    rep.part("textdiff-more-than-2^24-tokens", json!({"cases": ["2^23 equal tokens + 1 appended", "2^23+1 tokens, one replaced"]}), ex);
     rep
 }
 
 pub fn replay(case: &Value) -> Result<String, String> {
+    if case.get("huge_textdiff").is_some() {
+        return Err("re-run ./run.sh C12 quick: the huge text-diff case is rebuilt from its description".into());
+    }
     if case.get("scale").is_some() {
         let syms = syms_from_json(&case["list"])?;
         let n = parse_u64(case, "n")? as usize;
